@@ -163,7 +163,8 @@ claim('C03', 'proof',
       'checking is on (with the effective allow_partial), and relocate(from_json(v)) otherwise; the list and dict write primitives hand exactly the formalized '
       'value to the C-level store, and when formalization raises (the schema rejected the value) nothing at all was written or detached before -- the targeted '
       'location keeps its previous content; `append`/`insert`/`del` keep the length within [min_size, max_size] and leave the list unchanged when they refuse; '
-      '`Schema.is_compatible` -- on whose answer a value that carries its own spec is adopted without re-validation -- pairs fields by key (shape-bounded, shared with C04). '
+      '`Schema.is_compatible` -- on whose answer a value that carries its own spec is adopted without re-validation -- pairs fields by key (shape-bounded, shared with C04); '
+      '`Dict.popitem` is refused, with nothing removed, exactly when the dict has a value spec. '
       'The full schema vocabulary x every write path x valid/invalid values is exercised by the bounded tier (re-apply of every stored member after every step).',
       'Trusted: engine; `Field.apply`/`ValueSpec.apply` are abstracted (C04 proves their algebra); `_relocate_if_symbolic` by its C01 contract. Object construction, '
       'Schema.apply key resolution and frozen/required-field rules are bounded-tier only.',
